@@ -30,7 +30,7 @@ for p in props:
     else:
         na.append({"property_id": pid, "reason": NA.get(pid, "not claimed yet: the proof machinery for this property is still being built (DESIGN.md section 8); no other technique is substituted")})
 old["checks"] = checks
-old["hooks"]["source_commits"] = ["3fd36b2", "de26bcc", "a6d805e"]
+old["hooks"]["source_commits"] = ["3fd36b2", "de26bcc", "a6d805e", "5818432", "edbb0a0"]
 old["not_applicable"] = na
 old["engines"][0]["serves_properties"] = [c["property_id"] for c in checks]
 json.dump(old, open(os.path.join(here, "MANIFEST.json"), "w"), indent=1)
